@@ -181,6 +181,7 @@ class Executor(object):
         self.self_obj = None
         self.steps = 0
         self.prune = True
+        self.deadline = None
         self.assume = []  # harness assumptions (used for pruning only; the harness adds them to its queries)
         self.prune_time = 0.0
         self.prune_queries = {}
@@ -195,6 +196,8 @@ class Executor(object):
             prefix = stack.pop()
             if len(done) > self.max_paths:
                 raise Unsupported("more than %d paths" % self.max_paths)
+            if self.deadline is not None and time.time() > self.deadline:
+                raise Unsupported("path exploration exceeded its time budget (%d paths finished)" % len(done))
             self.path = Path()
             self.prefix = list(prefix)
             self.pos = 0
@@ -903,6 +906,8 @@ class Executor(object):
         raise Unsupported("str method %s on a symbolic string" % name)
 
     def strip(self, s, which, chars):
+        """r = s.strip(chars): s = pre ++ r ++ post with pre, post over `chars` and r neither
+        starting nor ending with one of them (fresh variables; the constraints join the path)"""
         z = s.z
         cls = z3.Union(*[z3.Re(c) for c in chars]) if len(chars) > 1 else z3.Re(chars)
         r = self.new_str("strip")
@@ -910,15 +915,17 @@ class Executor(object):
         post = self.new_str("post") if which in ("strip", "rstrip") else None
         parts = ([pre] if pre is not None else []) + [r] + ([post] if post is not None else [])
         self.side.append(z == (z3.Concat(*parts) if len(parts) > 1 else parts[0]))
-        notws = z3.Complement(z3.Concat(z3.Full(z3.ReSort(z3.StringSort())), z3.Re("")))  # placeholder (unused)
-        del notws
-        anyc = z3.Full(z3.ReSort(z3.StringSort()))
+
+        def not_in_set(ch):
+            return z3.And([ch != z3.StringVal(c) for c in chars])
+
+        n = z3.Length(r)
         if pre is not None:
             self.side.append(z3.InRe(pre, z3.Star(cls)))
-            self.side.append(z3.Not(z3.InRe(r, z3.Concat(cls, anyc))))
+            self.side.append(z3.Or(n == 0, not_in_set(z3.SubString(r, 0, 1))))
         if post is not None:
             self.side.append(z3.InRe(post, z3.Star(cls)))
-            self.side.append(z3.Not(z3.InRe(r, z3.Concat(anyc, cls))))
+            self.side.append(z3.Or(n == 0, not_in_set(z3.SubString(r, n - 1, 1))))
         return SStr(r)
 
     def casemap(self, s, which):
@@ -1224,8 +1231,9 @@ def _index(sub):
 class Decider(object):
     """z3 queries with timing / counting; `unknown` is reported, never read as unsat"""
 
-    def __init__(self, timeout_ms=60000, seed=0):
+    def __init__(self, timeout_ms=60000, seed=0, first_ms=8000):
         self.timeout_ms = timeout_ms
+        self.first_ms = min(first_ms, timeout_ms)  # z3's share; cvc5 gets timeout_ms after an `unknown`
         self.seed = seed
         self.by_kind = {}
         self.time = 0.0
@@ -1233,7 +1241,7 @@ class Decider(object):
 
     def check(self, constraints, kind, name=None, keep=False):
         s = z3.Solver()
-        s.set("timeout", self.timeout_ms)
+        s.set("timeout", self.first_ms)
         s.set("random_seed", self.seed % 100003)
         for c in constraints:
             s.add(c)
@@ -1242,12 +1250,39 @@ class Decider(object):
         dt = time.time() - t0
         self.time += dt
         res = str(r)
+        if res == "unknown" and kind != "string-feasibility":
+            # second engine for the hard unsatisfiable cases (regular-expression side conditions):
+            # the cvc5 binary on the same query as SMT-LIB2 text; only its `unsat` is used
+            t1 = time.time()
+            if self.cvc5_unsat(s.to_smt2()):
+                res = "unsat"
+                kind = kind + "[cvc5]"
+            self.time += time.time() - t1
         d = self.by_kind.setdefault(kind, {})
         d[res] = d.get(res, 0) + 1
         if keep:
             self.smt2.append((name or kind, s.to_smt2()))
         model = s.model() if res == "sat" else None
         return res, model, dt
+
+    def cvc5_unsat(self, text):
+        import os
+        import subprocess
+        import tempfile
+
+        fd, path = tempfile.mkstemp(prefix="verif_str_", suffix=".smt2", dir="/var/tmp")
+        os.close(fd)
+        try:
+            with open(path, "w") as f:
+                f.write("(set-logic ALL)\n" + text)
+            try:
+                p = subprocess.run(["cvc5", "--strings-exp", "--tlimit=%d" % self.timeout_ms, path], capture_output=True, text=True, timeout=self.timeout_ms / 1000.0 + 30)
+            except (subprocess.TimeoutExpired, OSError):
+                return False
+            out = p.stdout.strip().splitlines()
+            return bool(out) and out[0] == "unsat" and "(error" not in p.stdout
+        finally:
+            os.unlink(path)
 
     def stats(self):
         tot = sum(sum(d.values()) for d in self.by_kind.values())
